@@ -98,7 +98,7 @@ func Check(res *Result) []Violation {
 	if !res.AllReturned {
 		msg := "system quiescent but a directive has not returned; live goroutines: " + strings.Join(res.StuckDesc, "; ")
 		for _, x := range res.X {
-			if x.returned {
+			if x.returned || !x.started {
 				continue
 			}
 			if x.d.Barrier {
@@ -120,6 +120,9 @@ func Check(res *Result) []Violation {
 		c.add("C06", "leak:blocked-unregistered", "synctest reports goroutines blocked forever at the end of the run")
 	}
 	for _, x := range res.X {
+		if !x.started {
+			continue // nested execution whose enclosing task never ran
+		}
 		if x.propagated != nil {
 			c.add("C04", "panic-propagated", "exec %d (%s): a panic escaped the directive: %v", x.idx, x.prog.Name, x.propagated)
 			continue
@@ -193,6 +196,39 @@ func eqArgs(a, b []uint64) bool {
 	return true
 }
 
+// cancelView returns the first instant at which the execution's context was
+// cancelled: by its own plan (by = id of the task that cancelled, -1 for an
+// outside party) or because the context of an enclosing execution was
+// cancelled or released. before: that happened before the directive was
+// called. inherited: an enclosing execution's context ended first.
+func (x *execRun) cancelView() (seq, by int, before, inherited bool) {
+	by = -2
+	for _, e := range x.events {
+		if e.Kind == EvCancel {
+			seq, by = e.Seq, e.ID
+			break
+		}
+	}
+	ret := 0
+	for _, e := range x.events {
+		if e.Kind == EvRet {
+			ret = e.Seq
+		}
+	}
+	for p := x.parent; p != nil; p = p.parent {
+		for _, e := range p.events {
+			if ret != 0 && e.Seq > ret {
+				continue // after this execution had returned
+			}
+			if (e.Kind == EvCancel || e.Kind == EvCleanup) && (seq == 0 || e.Seq < seq) {
+				seq, by, inherited = e.Seq, -1, true
+			}
+		}
+	}
+	before = x.d.CancelMode == CancelBefore || (seq != 0 && x.callSeq != 0 && seq < x.callSeq)
+	return
+}
+
 func (c *checker) checkFlow(x *execRun) {
 	f := x.prog.Flow
 	d := x.d
@@ -201,7 +237,7 @@ func (c *checker) checkFlow(x *execRun) {
 	M := progen.EvalFlow(x.prog.ID, f, pl)
 	task := map[int]*span{}
 	pred := map[int]*span{}
-	cancelSeq, cancelBy := 0, -2
+	cancelSeq, cancelBy, cancelBefore, cancelInherited := x.cancelView()
 	for _, e := range x.events {
 		switch e.Kind {
 		case EvTaskStart, EvPredStart:
@@ -222,10 +258,6 @@ func (c *checker) checkFlow(x *execRun) {
 		case EvPredEnd:
 			if s := pred[e.ID]; s != nil {
 				s.end = e.Seq
-			}
-		case EvCancel:
-			if cancelSeq == 0 {
-				cancelSeq, cancelBy = e.Seq, e.ID
 			}
 		}
 	}
@@ -262,7 +294,7 @@ func (c *checker) checkFlow(x *execRun) {
 			specials = true
 		}
 	}
-	noCancel := d.CancelMode == CancelNone
+	noCancel := d.CancelMode == CancelNone && !cancelInherited
 
 	// at most once
 	for id, s := range task {
@@ -411,7 +443,7 @@ func (c *checker) checkFlow(x *execRun) {
 			switch {
 			case cancelBy >= 0 && up[id][cancelBy]:
 				c.add("C09", "started-after-cancel:dependent", "%s: task %d depends on task %d, which cancelled the context (#%d), and was still invoked (#%d)", who, id, cancelBy, cancelSeq, s.start)
-			case d.CancelMode == CancelBefore:
+			case cancelBefore:
 				c.add("C09", "started-after-cancel:enqueued-later", "%s: the context was cancelled before the directive was called, yet task %d was invoked", who, id)
 			case inside >= x.limit():
 				c.add("C09", "started-after-cancel:no-free-worker", "%s: all %d workers were inside user functions at the cancellation (#%d), yet task %d was invoked afterwards (#%d)", who, x.limit(), cancelSeq, id, s.start)
@@ -424,7 +456,7 @@ func (c *checker) checkFlow(x *execRun) {
 			switch {
 			case cancelBy >= 0 && predUp(f, up, id)[cancelBy]:
 				c.add("C09", "started-after-cancel:dependent", "%s: predicate of task %d depends on task %d, which cancelled the context, and was still evaluated", who, id, cancelBy)
-			case d.CancelMode == CancelBefore:
+			case cancelBefore:
 				c.add("C09", "started-after-cancel:enqueued-later", "%s: the context was cancelled before the directive was called, yet predicate %d was evaluated", who, id)
 			}
 		}
@@ -737,7 +769,7 @@ func (c *checker) checkPar(x *execRun) {
 	}
 	elems := map[int][]*elemCall{}
 	endHook := map[int]*span{}
-	cancelSeq := 0
+	cancelSeq, cancelBy, cancelBefore, cancelInherited := x.cancelView()
 	for _, e := range x.events {
 		switch e.Kind {
 		case EvTaskStart:
@@ -768,13 +800,9 @@ func (c *checker) checkPar(x *execRun) {
 			if s := endHook[e.ID]; s != nil {
 				s.end = e.Seq
 			}
-		case EvCancel:
-			if cancelSeq == 0 {
-				cancelSeq = e.Seq
-			}
 		}
 	}
-	noCancel := d.CancelMode == CancelNone
+	noCancel := d.CancelMode == CancelNone && !cancelInherited
 	goexit := false
 	fired := 0 // failures that actually happened
 	var wantErrs []error
@@ -1007,9 +1035,54 @@ func (c *checker) checkPar(x *execRun) {
 		}
 	}
 	// cancellation before the call: nothing may start
-	if d.CancelMode == CancelBefore {
+	if cancelBefore {
 		if len(task) > 0 || len(elems) > 0 || len(endHook) > 0 {
 			c.add("C09", "started-after-cancel:enqueued-later", "%s: the context was cancelled before Parallel was called, yet user functions were invoked", who)
+		}
+	}
+	if cancelSeq != 0 {
+		// an End function depends on every element call of its collection: if one of
+		// them cancelled the context, the End function can only start afterwards
+		if d.CancelMode == CancelInElem && cancelBy >= 0 && !cancelInherited {
+			if eh := endHook[cancelBy]; eh != nil {
+				c.add("C09", "started-after-cancel:dependent", "%s: an element call of collection %d cancelled the context (#%d), yet the End function of that collection, which depends on it, was invoked (#%d)", who, cancelBy, cancelSeq, eh.start)
+			}
+		}
+		// all workers busy at the cancellation: whatever starts afterwards could only start afterwards
+		inside := 0
+		in := func(start, end int) {
+			if start != 0 && start < cancelSeq && (end == 0 || end > cancelSeq) {
+				inside++
+			}
+		}
+		for _, s := range task {
+			in(s.start, s.end)
+		}
+		for _, s := range endHook {
+			in(s.start, s.end)
+		}
+		for _, l := range elems {
+			for _, ec := range l {
+				in(ec.start, ec.end)
+			}
+		}
+		if inside >= x.limit() {
+			late := func(what string, id, start int) {
+				if start > cancelSeq {
+					c.add("C09", "started-after-cancel:no-free-worker", "%s: all %d workers were inside user functions at the cancellation (#%d), yet %s %d was invoked afterwards (#%d)", who, x.limit(), cancelSeq, what, id, start)
+				}
+			}
+			for id, s := range task {
+				late("task", id, s.start)
+			}
+			for id, s := range endHook {
+				late("the End function of collection", id, s.start)
+			}
+			for id, l := range elems {
+				for _, ec := range l {
+					late("an element function of collection", id, ec.start)
+				}
+			}
 		}
 	}
 	// emitters
